@@ -9,7 +9,7 @@ CHECKS = {
  "C01": ("exploration",
          "bounded-exhaustive input enumeration against an ISA reference model + differential pair enumeration",
          "DESIGN.md §4 C01",
-         "Every (mnemonic x syntactic form x operand boundary class x radix x case), the branch distance sweep -140..140 x 3 shapes x 2 directions x 6 anchors, and every ordered pair of 170 statement forms x 4 separators are executed on the real parser+codegen; exhaustive for that finite space, which contains every shortcut visible in the code (255/256, -128/127, target $0000, optional operands).",
+         "Every (mnemonic x syntactic form x operand boundary class x radix x case), the branch distance sweep -140..140 x 3 shapes x 2 directions x 6 anchors and again inside segments whose run address differs from their storage address, and every ordered pair of 170 statement forms x 4 separators are executed on the real parser+codegen; exhaustive for that finite space, which contains every shortcut visible in the code (255/256, -128/127, target $0000, optional operands).",
          "Operand values are boundary classes plus seed-chosen representatives; ISA model generated from the opcode bit structure is trusted; values above 65535 / negative values are outside the statement."),
  "C05": ("exploration",
          "bounded-exhaustive input enumeration (all single-character edits of a production-covering corpus, all short token strings, all line splices) with a round-trip oracle on the real parser",
@@ -24,7 +24,7 @@ CHECKS = {
  "C02": ("exploration",
          "bounded-exhaustive program enumeration with a fixed-point certificate check of the implementation's own output",
          "DESIGN.md §4 C02",
-         "All statement sequences up to length 4 (quick) / 5 (thorough) over 28 items (incl. a relative reservation) placed at the zero-page boundary, all 3-level scoping shapes x 10 path forms, all 1-3 segment configurations with cross references, and promotion ladders that need up to 45 (quick) / 95 (thorough) passes to settle are assembled by the real multi-pass code generator; every successful build is certified by an independent walker: labels and block start/end symbols equal the cursor, every statement's bytes equal the ISA/evaluator result under the implementation's own final symbols, nothing unexplained in the image, segments.x.start/end and the VICE export agree. Sound for programs with several fixed points.",
+         "All statement sequences up to length 4 (quick) / 5 (thorough) over 28 items (incl. a relative reservation) placed at the zero-page boundary, all 3-level scoping shapes x 10 path forms, all 1-3 segment configurations with cross references, alignment and branches (each with segment blocks and with block-less segment switches; scoping shapes also with an explicitly defined segment), and promotion ladders that need up to 45 (quick) / 95 (thorough) passes to settle are assembled by the real multi-pass code generator; every successful build is certified by an independent walker: labels and block start/end symbols equal the cursor, every statement's bytes equal the ISA/evaluator result under the implementation's own final symbols, nothing unexplained in the image, segments.x.start/end and the VICE export agree. Sound for programs with several fixed points.",
          "Small-scope: two label names, bounded length; the walker's scoping resolver (innermost-outward, super, dotted) and ISA model are trusted; programs with constructs outside the walker are counted, not judged."),
  "C03": ("exploration",
          "bounded-exhaustive enumeration of expression trees against a reference evaluator (batched, failing batches bisected)",
@@ -44,7 +44,7 @@ CHECKS = {
  "C09": ("exploration",
          "bounded-exhaustive configuration enumeration (radius-bounded around base configurations) against a bank layout reference model, on the real executable",
          "DESIGN.md §4 C09",
-         "Bank/segment configurations (sizes, fills, filenames, create-segment, starts incl. overlaps/below/dependent, pc, write, bank assignment, output format/filename, definition orders) within a stated number of factor changes of the base configurations are built with the real `mos` binary in scratch directories; exit status and every byte of every output file are compared with a layout model written from the property statement.",
+         "Bank/segment configurations (sizes, fills, filenames, create-segment, starts incl. overlaps/below/dependent, pc, write, bank assignment, output format/filename, definition orders) within a stated number of factor changes of the base configurations are built with the real `mos` binary in scratch directories; exit status and every byte of every output file are compared with a layout model written from the property statement; every 4th (thorough: every) configuration that builds is built again over longer stale output files and must give the same files.",
          "The full product is pruned to radius-bounded neighbourhoods (listed in the evidence); configurations where the statement is silent are counted, not judged."),
  "C12": ("exploration",
          "deviation-bounded exhaustive enumeration of commented programs x formatter configurations with token/meaning/comment-sequence oracles",
@@ -64,7 +64,7 @@ CHECKS = {
  "C19": ("model_checking",
          "stateless preemption-bounded DFS over the interleavings of the real debugger threads under a controlled scheduler (hooked scheduling points), replayable schedules",
          "DESIGN.md §4 C19",
-         "The repository's own machine and poller threads and a harness session thread run under a baton-passing scheduler that owns every lock/atomic/channel/sleep point of the emulated-machine debug adapter. For every script over setBreakpoints/configurationDone/wait/pause/continue/next/stepIn/stepOut up to the length bound, on a straight-line, a loop and a subroutine program, all schedules with at most 1 (quick) / 2-3 (thorough) preemptions are executed; in each the reported stop address and registers are compared with the CPU, the machine must stay halted after a reported stop, breakpoints must not be skipped and steps must follow the uninterrupted instruction sequence.",
+         "The repository's own machine and poller threads and a harness session thread run under a baton-passing scheduler that owns every lock/atomic/channel/sleep point of the emulated-machine debug adapter. For every script over setBreakpoints/configurationDone/wait/pause/continue/next/stepIn/stepOut up to the length bound (continue and steps also while the machine runs freely), on a straight-line, a loop and a subroutine program, all schedules with at most 1 (quick) / 2-3 (thorough) preemptions are executed; in each the reported stop address and registers are compared with the CPU, the machine must stay halted after a reported stop, breakpoints must not be skipped and steps must follow the uninterrupted instruction sequence. Protocol-level DAP sessions on the real process (4 programs, one laid out in descending address order) bind the adapter-level result to what a client sees.",
          "Sequentially consistent interleavings at the hooked points; the harness calls the adapter methods the DAP handlers call (no TCP); recorded schedules are replayed and must reproduce the observations, a divergence is a machinery error."),
  "C17": ("exploration",
          "deviation-bounded exhaustive enumeration of buffers (trivia, whitespace, CRLF, non-ASCII deviations) with an edit-application oracle against the real formatter, on the real server",
@@ -74,7 +74,7 @@ CHECKS = {
  "C18": ("exploration",
          "bounded-exhaustive enumeration of test bodies x assertion placements against a reference 6502 interpreter, in-process test runner and real `mos test`",
          "DESIGN.md §4 C18",
-         "All bodies of up to 2 (quick) / 3 (thorough) instructions from a 14-instruction alphabet in a straight-line, a loop and a subroutine frame, with one assertion of 8 kinds at every gap whose compared value is the reference interpreter's value at the first or second dynamic visit (or that value + 1), plus two-bank isolation programs, are run through the real TestRunner and a stratified subset through `mos test`; verdict, failing location, message and exit status are compared with the reference.",
+         "All bodies of up to 2 (quick) / 3 (thorough) instructions from a 14-instruction alphabet in a straight-line, a loop and a subroutine frame, in a straight-line, loop, subroutine and subroutine-outside-the-test frame, with one assertion of 12 kinds (registers, memory incl. the top of the address space, flags, pc, constants, and assertions that cannot be evaluated) at every gap whose compared value is the reference interpreter's value at the first or second dynamic visit (or that value + 1), plus two-bank isolation programs (with fill values and gaps between a bank's segments), are run through the real TestRunner and a stratified subset through `mos test`; verdict, failing location, message and exit status are compared with the reference.",
          "Reference interpreter for the documented binary-mode subset is trusted (checked to be independent of the initial machine state); one assertion per test."),
  "C10": ("model_checking",
          "exhaustive enumeration of (project, hash seed) pairs on the real executable with owned seed nondeterminism (getrandom shim)",
@@ -99,7 +99,7 @@ CHECKS = {
  "C04": ("fault_enumeration",
          "exhaustive single-fault injection: fault classes x every statement slot of every base program (contexts incl. imported file), in-process location oracle + real-binary exit/stdout/target-directory oracle",
          "DESIGN.md §4 C04",
-         "18 fault texts covering the 11 error classes are injected one at a time at every statement slot of every valid base program - top level, scopes, loop bodies, taken branches, invoked macro bodies, segment and import blocks - and at every line boundary of the imported file. Each faulty project must produce a diagnostic whose line lies inside the offending construct (the second definition for redefinitions, the branch for range errors, the call for arity errors); through the real binary: exit status 1, stdout names file:line:col, the target directory keeps exactly its two pre-existing files, unmodified.",
+         "22 fault texts covering the 11 error classes (range faults at the smallest invalid distances, illegal modes incl. those that depend on the operand's size) are injected one at a time at every statement slot of every valid base program and of a program that needs 57 passes to settle - top level, scopes, loop bodies, taken branches, invoked macro bodies, segment and import blocks - and at every line boundary of the imported file. Each faulty project must produce a diagnostic whose line lies inside the offending construct (the second definition for redefinitions, the branch for range errors, the call for arity errors); through the real binary: exit status 1, stdout names file:line:col, the target directory keeps exactly its two pre-existing files, unmodified.",
          "One fault per program; weakest reading of 'names the location' (line within the construct); semantic faults only where `mos build` assembles the code."),
  "C11": ("exploration",
          "bounded-exhaustive program enumeration with a certificate oracle: the fixed-point walker's byte->statement attribution against the source map and the parsed listing text",
